@@ -49,6 +49,35 @@ fn main() {
                 }
             }
         }
+        Some("showhist") => {
+            // vcheck showhist <seed> <tag> <case> <frag,frag> [thorough]: run the honest case and print the
+            // steps around runs that left fold lore unclaimed (diagnostic)
+            use vharness::mon::honest::*;
+            let seed: u64 = args[2].parse().unwrap();
+            let tag: u64 = args[3].parse().unwrap();
+            let case: u64 = args[4].parse().unwrap();
+            let frags: Vec<Frag> = args[5].split(',').map(|f| match f { "seq" => Frag::Seq, "stream" => Frag::Stream, "streamnofail" => Frag::StreamNoFail, _ => Frag::SeqNoFail }).collect();
+            let thorough = args.get(6).map(|t| t == "thorough").unwrap_or(false);
+            let cfg = Cfg { seed, thorough, only_case: None, threads: 1 };
+            let c = build_case(&cfg, tag, case, &frags).expect("case");
+            let w = &c.world;
+            let mut air = w.air.clone();
+            for (i, p) in w.peers.iter().enumerate() {
+                air = air.replace(p.id.as_str(), &format!("@P{i}"));
+            }
+            println!("{air}");
+            let interesting: Vec<usize> = c.history.steps.iter().filter(|s| s.out.ret_code != 0 || s.out.events.iter().any(|e| matches!(e, air::verif_hooks::Event::FoldUnclaimedLoreByCause { .. }))).map(|s| s.idx).collect();
+            for s in &c.history.steps {
+                let show = interesting.iter().any(|i| s.idx + 1 >= *i && s.idx <= *i);
+                println!("step {} {} {:?} from={:?} code={} {} next={:?}", s.idx, w.peers[s.peer].name, s.decision, s.from, s.out.ret_code, vharness::proj::trunc(&s.out.error_message, 160), s.out.next_peers.iter().map(|p| w.peer_name(p)).collect::<Vec<_>>());
+                if show {
+                    if let Some(v) = &s.cur_v { println!("   CUR  {:?}", vharness::proj::render_trace(v)); }
+                    if let Some(v) = &s.prev_v { println!("   PREV {:?}", vharness::proj::render_trace(v)); }
+                    if let Some(v) = &s.out_v { println!("   OUT  {:?}", vharness::proj::render_trace(v)); }
+                    for e in &s.out.events { if !matches!(e, air::verif_hooks::Event::StreamAdd { .. } | air::verif_hooks::Event::ScopeStart { .. } | air::verif_hooks::Event::ScopeEnd { .. }) { println!("      ev {:?}", e); } }
+                }
+            }
+        }
         Some("play") => {
             // vcheck play <air-file> <n_peers> <seed> : run one random history of a hand-written script and print it
             let air = std::fs::read_to_string(&args[2]).expect("air file");
